@@ -35,6 +35,12 @@ def make(spec):
     import scared
     name, prec = spec['name'], spec.get('precision', 'float32')
     parts = spec.get('partitions')
+    if parts is not None and spec.get('partitions_as'):
+        # class lists are also given as numpy arrays (any integer dtype, any order) or ranges
+        dt = np.dtype(spec['partitions_as'])
+        if min(parts) < np.iinfo(dt).min or max(parts) > np.iinfo(dt).max:
+            dt = np.dtype('int64')
+        parts = np.array(parts, dtype=dt)
     if name == 'cpa':
         return scared.CPADistinguisher(precision=prec)
     if name == 'cpa_alt':
